@@ -109,6 +109,7 @@ static const int chan_stack[CH_MAX] = {
 static const int chan_dup[CH_MAX] = {
 	[CH_TYPE] = 1,
 	[CH_RANK] = 1,
+	[CH_SUBSYSTEM] = 1, /* A task body nested right over another */
 };
 
 
